@@ -10,7 +10,8 @@ import MdVerif.Driver.Sel
 import MdVerif.Driver.Mic
 import MdVerif.Driver.Cell
 import MdVerif.Driver.Nb
-open MdVerif MdVerif.Driver MdVerif.Driver.TrajP MdVerif.Driver.TopoP MdVerif.Driver.WriterP MdVerif.Driver.SelP MdVerif.Driver.MicP MdVerif.Driver.CellP MdVerif.Driver.NbP
+import MdVerif.Driver.Ang
+open MdVerif MdVerif.Driver MdVerif.Driver.TrajP MdVerif.Driver.TopoP MdVerif.Driver.WriterP MdVerif.Driver.SelP MdVerif.Driver.MicP MdVerif.Driver.CellP MdVerif.Driver.NbP MdVerif.Driver.AngP
 
 def handle (line : String) : String :=
   let ws := (line.splitOn " ").filter (· ≠ "")
@@ -23,6 +24,7 @@ def handle (line : String) : String :=
   | "mic" :: _ => handleMic ws
   | "cell" :: _ | "cellops" :: _ => handleCell ws
   | "nbl" :: _ | "nbs" :: _ => handleNb ws
+  | "ang" :: _ | "dih" :: _ | "tors" :: _ => handleAng ws
   | _ => "bad-op"
 
 partial def loop (h : IO.FS.Stream) (out : IO.FS.Stream) : IO Unit := do
